@@ -168,6 +168,7 @@ def make_dbsession_class():
 
         async def __aexit__(self, exc_type, exc, tb):
             obs = self.observer
+            abort = None
             if exc is None and obs is not None:
                 try:
                     con = self._require_transaction_con()
@@ -175,6 +176,12 @@ def make_dbsession_class():
                         obs.before_commit(con)
                 except RuntimeError:
                     pass
+                except BaseException as stop:  # noqa: BLE001 - instrument.AbortBuild
+                    abort = stop
+            if abort is not None:
+                # roll back and release the lock, then let the build die
+                await super().__aexit__(type(abort), abort, abort.__traceback__)
+                raise abort
             await super().__aexit__(exc_type, exc, tb)
             if exc is None and obs is not None:
                 obs.after_commit()
@@ -326,6 +333,7 @@ class Session:
         self.double_runs = []
         self.record_inputs_at_start = False
         self.patches = []  # (object, attribute, replacement) applied for the time of run_build
+        self.call_hooks = []  # objects with call_started/call_finished(ctx, opname[, outcome])
 
     # -- logging
 
@@ -422,9 +430,16 @@ class Session:
         """Await a handler call the way a step would: usage errors end the program."""
         from stepup.core.exceptions import UsageError
 
+        for hook in self.call_hooks:
+            hook.call_started(ctx, opname)
         try:
-            return await coro
+            result = await coro
+            for hook in self.call_hooks:
+                hook.call_finished(ctx, opname, "accepted")
+            return result
         except UsageError as exc:
+            for hook in self.call_hooks:
+                hook.call_finished(ctx, opname, "rejected")
             self.rejections.append((ctx["label"], opname, type(exc).__name__, str(exc)))
             self.log(op="rejected", label=ctx["label"], call=opname, cls=type(exc).__name__,
                      message=str(exc))
@@ -432,6 +447,8 @@ class Session:
         except (asyncio.CancelledError, StopProgram):
             raise
         except Exception as exc:  # noqa: BLE001 - an internal error of the director
+            for hook in self.call_hooks:
+                hook.call_finished(ctx, opname, "internal-error")
             self.internal_errors.append((ctx["label"], opname, type(exc).__name__, str(exc),
                                          traceback.format_exc()))
             self.log(op="internal_error", label=ctx["label"], call=opname,
@@ -466,6 +483,28 @@ class Session:
                      patterns=[p for p, _ in patterns])
             await self._call(ctx, "declare_static", h.declare_static(
                 job, sorted(set(trees)), sorted(set(files)), patterns))
+        elif name == "static_raw":
+            # a request exactly as given (no client-side existence check or classification)
+            trees, files = list(args[0]), list(args[1])
+            patterns = []
+            for pattern in args[2]:
+                ng = NamedGlob(pattern)
+                ng.glob()
+                patterns.append((pattern, [str(p) for p in ng.files()]))
+            self.log(op="static", label=label, trees=trees, files=files,
+                     patterns=[p for p, _ in patterns], raw=True)
+            await self._call(ctx, "declare_static", h.declare_static(job, trees, files, patterns))
+        elif name == "seq":
+            for sub in args:
+                await self._exec_op(ctx, sub)
+        elif name == "try":
+            # the program survives a rejected request, like a script that catches the exception
+            nrej = len(self.rejections)
+            try:
+                await self._exec_op(ctx, args[0])
+            except StopProgram:
+                if len(self.rejections) == nrej:
+                    raise
         elif name == "glob":
             pattern, subs = args[0], (args[1] if len(args) > 1 else {})
             ng = NamedGlob(pattern, dict(subs))
